@@ -4,7 +4,7 @@
 // NULL at the call indices the scenario names and for every request above 1 MiB (huge sizes never reach libc).
 //
 // scenario :  <guard 0|1> <node_size> <nfail> <failing call index>*  <op>*
-//   op     :  :m n | :c num size | :r id|~ n | :sd $str | :sn $str n | :n n | :na n | :nt n | :nat n | :nd n | :nad n
+//   op     :  :m n | :dm n (detector level, inline record) | :c num size | :r id|~ n | :sd $str | :sn $str n | :n n | :na n | :nt n | :nat n | :nd n | :nad n
 //             | :f id | :w id off $bytes          (id = index of the op that created the block)
 // observation: <guard> <sizeof node> then per op
 //   | kind ncalls (ckind size ok)* amod off req nodekind nodeval digest total reports
@@ -101,7 +101,8 @@ public:
 };
 
 // ---- blocks of the scenario
-struct Block { char* p; size_t n; int fam; bool live; };   // fam 0 malloc, 1 new, 2 new[]
+struct Block { char* p; size_t n; int fam; bool live; bool det; };   // fam 0 malloc, 1 new, 2 new[]; det: allocated at detector level with an inline record
+static TestMemoryAllocator* gMalloc;
 static std::vector<Block> blocks;
 static MemoryLeakDetector* det; static RecFailure rep;
 
@@ -118,7 +119,8 @@ static std::string digest(const char* p, size_t n)
 static void release(Block& b)
 {
     on();
-    if (b.fam == 0) cpputest_free(b.p);
+    if (b.fam == 0 && b.det) { det->invalidateMemory(b.p); det->deallocMemory(gMalloc, b.p, "det.c", 3, false); }
+    else if (b.fam == 0) cpputest_free(b.p);
     else if (b.fam == 1) ::operator delete(b.p);
     else ::operator delete[](b.p);
     off();
@@ -133,6 +135,7 @@ int main()
     static RecAlloc aMalloc("Standard Malloc Allocator", "malloc", "free");
     static RecAlloc aNew("Standard New Allocator", "new", "delete");
     static RecAlloc aNewArr("Standard New [] Allocator", "new []", "delete []");
+    gMalloc = &aMalloc;
     setCurrentMallocAllocator(&aMalloc); setCurrentNewAllocator(&aNew); setCurrentNewArrayAllocator(&aNewArr);
     Toks t;
     while (readline(t)) {
@@ -149,11 +152,12 @@ int main()
         out = hx((unsigned long long)MemoryLeakDetector::memory_corruption_buffer_size ? 1 : 0) + " " + hx(sizeof(MemoryLeakDetectorNode));
         while (!t.end()) {
             std::string op = t.sym();
-            Block nb; nb.p = NULL; nb.n = 0; nb.fam = 0; nb.live = false;
+            Block nb; nb.p = NULL; nb.n = 0; nb.fam = 0; nb.live = false; nb.det = false;
             int kind = K_SKIP; ncalls = 0; int rep0 = rep.count;
             const char* shown = NULL; size_t shownN = 0;     // block whose content is shown
             bool isAlloc = false, skip = false; unsigned char fill = 0xA5; bool doFill = false; size_t fillFrom = 0;
             if (op == "m") { size_t n = t.u(); on(); nb.p = (char*)cpputest_malloc(n); off(); nb.n = n; isAlloc = true; doFill = true; }
+            else if (op == "dm") { size_t n = t.u(); on(); nb.p = det->allocMemory(gMalloc, n, "det.c", 3, false); off(); nb.n = n; nb.det = true; isAlloc = true; doFill = true; }
             else if (op == "c") { size_t a = t.u(), b = t.u(); on(); nb.p = (char*)cpputest_calloc(a, b); off(); nb.n = a * b; isAlloc = true;
                                   if (nb.p && (b != 0 && a > (size_t)-1 / b)) nb.n = (size_t)-1; }
             else if (op == "sd") { std::string s; t.bytes(s); on(); nb.p = cpputest_strdup(s.c_str()); off(); nb.n = strlen(s.c_str()) + 1; isAlloc = true; }
@@ -181,7 +185,10 @@ int main()
                 Block* ob = NULL;
                 if (idt != "~") { size_t id = strtoull(idt.c_str(), NULL, 16); if (id < blocks.size() && blocks[id].live && blocks[id].fam == 0) ob = &blocks[id]; else skip = true; }
                 if (!skip) {
-                on(); nb.p = (char*)cpputest_realloc(ob ? ob->p : NULL, n); off();
+                on();
+                if (ob && ob->det) { nb.p = det->reallocMemory(gMalloc, ob->p, n, "det.c", 3, false); nb.det = true; }
+                else nb.p = (char*)cpputest_realloc(ob ? ob->p : NULL, n);
+                off();
                 nb.n = n; isAlloc = true; doFill = true; fill = 0x5A;
                 if (nb.p) { fillFrom = ob ? (ob->n < n ? ob->n : n) : 0; if (ob) ob->live = false; }
                 else if (ob) { shown = ob->p; shownN = ob->n; }
